@@ -68,6 +68,8 @@ var (
 	reAssignTv    = regexp.MustCompile(`^v = tv$`)
 	reSymStr      = regexp.MustCompile(`^v = string\(tv\)$`)
 	reTimeF       = regexp.MustCompile(`^secs := int64\(tv\) ; (v|tt) = time\.Unix\(0, secs\*int64\(time\.Second\)\)\.In\(time\.UTC\)\.Add\(time\.Duration\(\(tv - float64\(secs\)\) \* float64\(time\.Second\)\)\)$`)
+	reTimeFChk    = regexp.MustCompile(`^if tv != tv \|\| tv <= -maxTimeSecs-1 \|\| maxTimeSecs\+1 <= tv \{ err = newCoerceErr\(tv, "Time"\) v = nil \} else \{ secs := int64\(tv\) (v|tt) = time\.Unix\(0, secs\*int64\(time\.Second\)\)\.In\(time\.UTC\)\.Add\(time\.Duration\(\(tv - float64\(secs\)\) \* float64\(time\.Second\)\)\) \}$`)
+	reTimeIChk    = regexp.MustCompile(`^if tv < -maxTimeSecs \|\| maxTimeSecs < tv \{ err = newCoerceErr\(tv, "Time"\) v = nil \} else \{ (v|tt) = time\.Unix\(0, tv\*int64\(time\.Second\)\)\.In\(time\.UTC\) \}$`)
 	reTimeI       = regexp.MustCompile(`^(v|tt) = time\.Unix\(0, tv\*int64\(time\.Second\)\)\.In\(time\.UTC\)$`)
 	reTimeP       = regexp.MustCompile(`^var t time\.Time ; if t, err = time\.Parse\(time\.RFC3339Nano, tv\); err == nil \{ v = t \}$`)
 	reTimeP2      = regexp.MustCompile(`^tt, err = time\.Parse\(time\.RFC3339Nano, tv\)$`)
@@ -179,6 +181,10 @@ func actionOf(body string, pos string, kinds []string) string {
 		return ".asIs"
 	case reSymStr.MatchString(body):
 		return ".symStr"
+	case reTimeFChk.MatchString(body):
+		return ".timeOfFloatChk"
+	case reTimeIChk.MatchString(body):
+		return ".timeOfIntChk"
 	case reTimeF.MatchString(body):
 		return ".timeOfFloat"
 	case reTimeI.MatchString(body):
@@ -228,7 +234,36 @@ func tableOfSwitch(c *ctx, fd *ast.FuncDecl) (arms []string, dflt string, ok boo
 	return arms, dflt, true
 }
 
+// constLiteral returns the literal a package-level constant is declared with ("" when it is not one literal)
+func constLiteral(c *ctx, name string) string {
+	for _, f := range c.files {
+		for _, d := range f.Decls {
+			gd, ok := d.(*ast.GenDecl)
+			if !ok {
+				continue
+			}
+			for _, sp := range gd.Specs {
+				if vs, ok := sp.(*ast.ValueSpec); ok && len(vs.Names) == 1 && vs.Names[0].Name == name && len(vs.Values) == 1 {
+					if bl, ok := vs.Values[0].(*ast.BasicLit); ok {
+						return bl.Value
+					}
+				}
+			}
+		}
+	}
+	return ""
+}
+
 func genCoerce(c *ctx) string {
+	s := genCoerceTables(c)
+	// the range-checked time arms compare with maxTimeSecs: the model has the bound 9223372036 (= ⌊(2^63−1)/10^9⌋)
+	if strings.Contains(s, "Chk") && constLiteral(c, "maxTimeSecs") != "9223372036" {
+		s = strings.Replace(s, ".timeOfIntChk", unknown("maxTimeSecs", "timescalar.go"), 1)
+	}
+	return s
+}
+
+func genCoerceTables(c *ctx) string {
 	var b strings.Builder
 	b.WriteString("import Ggql.Model.Coerce\nnamespace Ggql.Gen\nopen Ggql.Coerce\n")
 	for _, sc := range coerceScalars {
